@@ -39,6 +39,14 @@ CHECKS = {
         "Same trusted base as C05; D=1 quick, D=2 thorough; prompt virtual time.",
         "3/C06",
     ),
+    "C07": (
+        "model_checking",
+        "sim",
+        "enumeration of every arrival point of a peer's A-RELEASE-RQ relative to the real service-class loops, with deviation-bounded schedule exploration around it",
+        "A byte-level raw peer runs C-FIND and C-GET operations against the real acceptor (handlers yielding 0..3 results) and sends A-RELEASE-RQ while idle, at every yield position (the handler is held until the request has reached the local provider), in place of every C-STORE sub-operation response and after the final response; quick: default schedule for all 41 arrival points plus all schedules with <= 1 deviation for the n=2 cases, thorough: <= 1 deviation for all.  The peer must receive A-RELEASE-RP promptly and the local association must end released, unless pynetdicom aborted for the documented DIMSE-timeout reason.",
+        "Same trusted base as C05/C06; C-MOVE sub-operations (second association) are not driven.",
+        "3/C07",
+    ),
     "C08": (
         "fault_enumeration",
         "sim",
